@@ -64,6 +64,9 @@ def main():
         if prop == "C06":
             import props_sugar
             return props_sugar.run(prop, tier)
+        if prop == "C05":
+            import props_helpers
+            return props_helpers.run(prop, tier)
         print("unknown property", prop)
         return 2
     except (common.MachineryError, tlcrun.TLCError) as e:
